@@ -167,8 +167,10 @@ class SelectEventLoop(EventLoop):
         """
         Call all the registered idle callbacks.
         """
-        for callback in list(self._idle_callbacks.values()):
-            callback()
+        for handle, callback in list(self._idle_callbacks.items()):
+            # a callback removed by an earlier one in this pass is not called
+            if handle in self._idle_callbacks:
+                callback()
 
     def run(self) -> None:
         """
